@@ -39,87 +39,85 @@ theorem redIf_mat (b : List Nat) (m : Nat) (red : Bool) (h : ∀ d ∈ b, 0 < d)
     rw [numel_append_single]; exact Nat.ne_of_gt (Nat.mul_pos (numel_pos b h) hm)
   cases red <;> simp [redIf, hp]
 
-/-- Code paths for which the documented shapes are proved: everything except the stochastic base path
-nested inside a block / repeat wrapper (known defect), triangular operators with a batch (known defect),
-the fallback / D12 Kronecker-added-diagonal paths and BatchRepeat (stated separately). -/
+/-- Code paths for which the documented shapes are proved: every leaf path (Cholesky / base-class shortcut,
+triangular, diagonal, identity, closed forms, the stochastic base path), Kronecker(-added-diag) over either
+base path, and Block operators nested to any depth over all of those.  (BatchRepeat and the KPADLO fallback are
+modelled and compared with the implementation, without a general theorem.) -/
 inductive Good : Path → Prop
   | chol : Good .chol
+  | tri : Good .tri
   | diag : Good .diag
   | identity : Good .identity
   | closed : Good .closed
+  | slq : Good .slq
   | kronChol : Good (.kron .chol)
   | kronSlq : Good (.kron .slq)
   | block (p : Path) (k : Nat) : Good p → 0 < k → Good (.block p k)
-
-def Term.placeholder (t : Term) : Prop := t = .none ∨ t = .empty
 
 theorem good_shapes (p : Path) (hg : Good p) :
     ∀ (batch : List Nat) (m : Nat) (lg red : Bool), (∀ d ∈ batch, 0 < d) → 0 < m →
       (shapes p batch (.mat m) lg red).1 = .shape (if red then batch else batch ++ [m]) ∧
       (lg = true → (shapes p batch (.mat m) lg red).2 = .shape batch) ∧
-      (lg = false → ((shapes p batch (.mat m) lg red).2).placeholder) ∧
-      ((shapes p batch .absent true red).1).placeholder ∧
+      (shapes p batch (.mat m) lg red).2 ≠ .err ∧
+      (shapes p batch .absent true red).1 ≠ .err ∧
       (shapes p batch .absent true red).2 = .shape batch := by
   induction hg with
-  | chol | closed =>
+  | chol | closed | tri =>
     intro batch m lg red hb hm
-    simp only [shapes, redIf_mat batch m red hb hm, Term.placeholder]
+    simp only [shapes, redIf_mat batch m red hb hm]
     cases lg <;> simp
   | diag | identity =>
     intro batch m lg red hb hm
-    simp only [shapes, Term.placeholder]
+    simp only [shapes]
     cases lg <;> simp
+  | slq =>
+    intro batch m lg red hb hm
+    cases lg <;> cases red <;> simp [shapes, redIf_mat batch m _ hb hm]
   | kronChol | kronSlq =>
     intro batch m lg red hb hm
-    simp only [shapes, redIf_mat batch m red hb hm, Term.placeholder]
+    simp only [shapes, redIf_mat batch m red hb hm]
     cases lg <;> cases red <;> simp
   | block p k _ hk ih =>
     intro batch m lg red hb hm
     have hbb := pos_append_single batch k hb hk
     obtain ⟨h1, h2, h3, _, _⟩ := ih (batch ++ [k]) m lg red hbb hm
     obtain ⟨_, _, _, h4, h5⟩ := ih (batch ++ [k]) m true red hbb hm
-    have hnb : numel (batch ++ [k]) ≠ 0 := Nat.ne_of_gt (numel_pos _ hbb)
-    have hnm : numel (batch ++ [k] ++ [m]) ≠ 0 := by
-      rw [numel_append_single]; exact Nat.ne_of_gt (Nat.mul_pos (numel_pos _ hbb) hm)
-    have hbk : batch ++ [k] ≠ [] := by simp
-    -- the block override on a matrix rhs
+    have hN : numel batch ≠ 0 := Nat.ne_of_gt (numel_pos _ hb)
+    have hk0 : k ≠ 0 := Nat.ne_of_gt hk
+    have hm0 : m ≠ 0 := Nat.ne_of_gt hm
     have hmat : shapes (.block p k) batch (.mat m) lg red
-        = blockPost batch k red (shapes p (batch ++ [k]) (.mat m) lg red) := rfl
+        = blockPost batch k true lg red (shapes p (batch ++ [k]) (.mat m) lg red) := rfl
     have habs : shapes (.block p k) batch .absent true red
-        = blockPost batch k red (shapes p (batch ++ [k]) .absent true red) := rfl
-    have post_live : ∀ (ld : Term), (ld = .shape (batch ++ [k]) ∨ ld.placeholder) →
-        blockPost batch k red (.shape (if red then batch ++ [k] else batch ++ [k] ++ [m]), ld)
-          = (.shape (if red then batch else batch ++ [m]),
-             if ld = .shape (batch ++ [k]) then .shape batch else ld) := by
-      intro ld hld
-      have hN : numel batch ≠ 0 := Nat.ne_of_gt (numel_pos _ hb)
-      have hk0 : k ≠ 0 := Nat.ne_of_gt hk
-      have hm0 : m ≠ 0 := Nat.ne_of_gt hm
-      rcases hld with hld | hld | hld <;> subst hld <;> cases red <;>
+        = blockPost batch k false true red (shapes p (batch ++ [k]) .absent true red) := rfl
+    -- requested inv_quad term + requested logdet
+    have post_tt : blockPost batch k true true red
+          (.shape (if red then batch ++ [k] else batch ++ [k] ++ [m]), .shape (batch ++ [k]))
+          = (.shape (if red then batch else batch ++ [m]), .shape batch) := by
+      cases red <;>
         simp [blockPost, numel_append, numel_cons, numel_nil, hN, hk0, hm0, List.getLast?_append, Nat.mul_assoc,
           Nat.mul_eq_zero]
-    have post_abs : ∀ (iq : Term), iq.placeholder →
-        blockPost batch k red (iq, .shape (batch ++ [k])) = (iq, .shape batch) := by
+    -- requested inv_quad term, logdet not requested: whatever the base returned is passed through
+    have post_tf : ∀ ld : Term, ld ≠ .err → blockPost batch k true false red
+          (.shape (if red then batch ++ [k] else batch ++ [k] ++ [m]), ld)
+          = (.shape (if red then batch else batch ++ [m]), ld) := by
+      intro ld hld
+      cases ld <;> cases red <;>
+        simp_all [blockPost, numel_append, numel_cons, numel_nil, List.getLast?_append, Nat.mul_assoc, Nat.mul_eq_zero]
+    -- no rhs: the inverse quadratic placeholder is passed through
+    have post_abs : ∀ iq : Term, iq ≠ .err →
+        blockPost batch k false true red (iq, .shape (batch ++ [k])) = (iq, .shape batch) := by
       intro iq hiq
-      have hN : numel batch ≠ 0 := Nat.ne_of_gt (numel_pos _ hb)
-      have hk0 : k ≠ 0 := Nat.ne_of_gt hk
-      rcases hiq with hiq | hiq <;> subst hiq <;>
-        simp [blockPost, numel_append, numel_cons, numel_nil, hN, hk0, Nat.mul_eq_zero]
+      cases iq <;> simp_all [blockPost, numel_append, numel_cons, numel_nil, Nat.mul_eq_zero]
     have e1 : shapes p (batch ++ [k]) (.mat m) lg red
         = (.shape (if red then batch ++ [k] else batch ++ [k] ++ [m]), (shapes p (batch ++ [k]) (.mat m) lg red).2) :=
       Prod.ext h1 rfl
-    have hld : (shapes p (batch ++ [k]) (.mat m) lg red).2 = .shape (batch ++ [k]) ∨
-        ((shapes p (batch ++ [k]) (.mat m) lg red).2).placeholder := by
-      cases lg
-      · exact Or.inr (h3 rfl)
-      · exact Or.inl (h2 rfl)
-    rw [hmat, habs, e1, post_live _ hld]
     have e2 : shapes p (batch ++ [k]) .absent true red = ((shapes p (batch ++ [k]) .absent true red).1, .shape (batch ++ [k])) :=
       Prod.ext rfl h5
-    rw [e2, post_abs _ h4]
-    refine ⟨rfl, ?_, ?_, h4, rfl⟩
-    · intro hl; simp [h2 hl]
-    · intro hl
-      rcases h3 hl with h | h <;> simp [h, Term.placeholder]
+    rw [hmat, habs, e2, post_abs _ h4, e1]
+    cases lg
+    · rw [post_tf _ h3]
+      exact ⟨rfl, fun h => absurd h (by decide), h3, h4, rfl⟩
+    · rw [h2 rfl, post_tt]
+      exact ⟨rfl, fun _ => rfl, (fun h => by cases h), h4, rfl⟩
 
 end LinOp.C05
